@@ -10,13 +10,20 @@ Space (bounded, enumerated completely; nothing sampled):
   gap          every gap between two consecutive pages of the re-paged link incl. the gap after its last page (and, for C1, the gap
                before its BOS page) on the small base; on the larger bases the gaps around the first / middle / last multi-page packet
                (before its first page, between each two of its pages, after its last page) and the first / middle / last page gap
-  junk         one run from JUNK per file (1 deviation; thorough: 2 runs in every pair of gaps of the small single-link files, reduced alphabet)
+  junk         one run from JUNK per file (1 deviation; thorough: 2 runs in every pair of gaps of the small single-link files, alphabet JUNK_PAIR)
+               JUNK: 16 zeros | 300 x 0xff | 5000 bytes of noise with bare capture patterns | 'OggS' + plausible header claiming a 65000-byte
+               page, wrong CRC, exactly 65000 bytes | the same header followed by 64 bytes only (claim reaches over the following pages / past
+               EOF) | the same header at the start of 140000 bytes | 70000 / 140000 bytes without any capture pattern (more than CHUNKSIZE: the
+               backward scan needs several hops) | a truncated copy of the previous page | a valid page of a foreign serial number
   open modes   s n t u p, short query/read sequences
-  seeks        every seek kind (raw, pcm, pcm_page, time, time_page and the five _lap variants) to every target of the file
-               (granule position of every page -1/0/+1, the middle of every multi-page packet; raw: page offsets -1/0/+1, inside the junk),
-               followed by a short read, the tell triple and one more seek of the same kind: on a FRESH handle per (file, seek), and in a
-               second pass all targets of a kind in a row on ONE handle (sync buffer already grown by earlier seeks).
-               quick: on the small base the targets of the pages within +-NEAR pages of the junk run (thorough: all targets).
+  seeks        every target of the file's target set (granule position of every page -1/0/+1, the middle of every multi-page packet; raw: page
+               offsets -1/0/+1, inside the junk), each followed by a short read, the tell triple and one more seek of the same kind: on a FRESH
+               handle per (file, seek), and in a second pass all targets of a kind in a row on ONE handle (sync buffer already grown by earlier
+               seeks).  Seek kinds: raw, pcm, pcm_page, time, time_page and the five _lap variants.
+  bounds       plan(tier) lists the rows (base, style, placement, gap set, target scope, seek kinds); every row is enumerated completely.
+               quick: small/S every gap, targets within 1 page of the junk, all 10 kinds; small/C0,C1 and large: the gap sites, targets
+               within 1 page, 4 resp. 10 (S) / 2 (C0,C1) kinds.  thorough: small/S every gap x ALL targets of the file (ps pp rs PS), small/C0,C1
+               every gap x near targets x 10 kinds, large and xl: sites x targets within 2 pages x 10 (S) / 4 kinds, plus the 2-run files.
 Oracle = C03's: ASan (incl. the instrumented ogg_page accessors), per-case CPU watchdog, documented return codes, open/clear flags.
 Landing positions are NOT judged (C07/C08 own them); they are recorded in the evidence (digest + histogram).
 """
@@ -380,8 +387,8 @@ def plan(tier):
         for st in STYLES:
             for pl in PLACES:
                 # all targets of the file on the single-link files (there without the time / page-lap wrappers), the near ones with every kind in chains
-                P.append(('small', st, pl, 'all', JUNK, 'all', ('ps', 'pp', 'rs', 'tp', 'PS', 'RS')) if pl == 'S' else ('small', st, pl, 'all', JUNK, 'near2', KINDS))
-                P.append(('large', st, pl, 'sites', JUNK, 'near2', KINDS))
+                P.append(('small', st, pl, 'all', JUNK, 'all', ('ps', 'pp', 'rs', 'PS')) if pl == 'S' else ('small', st, pl, 'all', JUNK, 'near1', KINDS))
+                P.append(('large', st, pl, 'sites', JUNK, 'near2', KINDS if pl == 'S' else ('pp', 'ts', 'RS', 'PS')))
             P.append(('xl', st, 'S', 'sites', JUNK, 'near2', KINDS))
     return P
 
@@ -452,7 +459,7 @@ def run(chk, tier, judge_op, doc_open, name_of, crash_key, hang_key):
                         r = assemble(lk, 'S', other, [(g1, j1), (g2, j2)])
                         f = add_file(*r)
                         if f:
-                            fplan.append((f, 'near1', ('ps', 'pp', 'tp', 'RS')))
+                            fplan.append((f, 'near1', ('ps', 'pp')))
     lf = os.path.join(d, 'list.txt')
     with open(lf, 'w') as fh:
         fh.write('\n'.join(paths) + '\n')
